@@ -31,57 +31,109 @@ def is_log_mac(node):
     return m.split("::", 1)[0] in LOG_MACRO_CRATES
 
 
-class PathA:
-    """Path-condition analysis of one function body.
+class FormulaSpace:
+    """A BDD manager plus the atom normalisation shared by path analyses and free-standing predicate spaces."""
 
-    avoid: blocks treated as deleted (for SKIP queries: "reaches X without passing S").
-    """
-
-    def __init__(self, world, fn, avoid=(), bdd=None):
-        self.world = world
-        self.fn = fn
-        self.fa = fna_of(world, fn)
-        self.cfg = cfg_of(fn)
+    def __init__(self, bdd=None, names=None):
         self.bdd = bdd or BDD()
-        self.avoid = set(avoid)
-        self.atom_keys = {}     # var index -> mem keys
         self.axioms = self.bdd.TRUE
-        self.pc_in = {}
-        self.bool_env = {}      # block -> {local: (T, F)} on entry
-        self.tracked = set(l for l in self.fa.multi if fn.locals[l]["ty"] == "bool")
-        self._edge_cond = {}
-        self._run()
+        self.tracked = set()
+        self.duals = {}
+        self._names = names or {}
 
-    # ------------------------------------------------------------------ atoms
     def atom(self, e):
+        return self.bdd.var(e)
+
+    def names(self):
+        return self._names
+
+    def entails(self, pc, f):
         b = self.bdd
-        n = len(b.vars)
-        v = b.var(e)
-        if len(b.vars) != n:
-            self.atom_keys[n] = self.fa.mem_keys(e)
-        return v
+        return b.AND(b.AND(self.axioms, pc), b.NOT(f)) == b.FALSE
 
-    def _hit(self, evkeys, akeys):
-        for k in evkeys:
-            if k in akeys:
-                return True
-            if k[0] == "adt":
-                for kk in akeys:
-                    if kk[0] == "f" and kk[1] == k[1]:
-                        return True
-        return False
+    def equivalent(self, f, g):
+        return self.entails(f, g) and self.entails(g, f)
 
-    def _kill(self, f, evkeys):
-        if f <= 1 or not evkeys:
-            return f
-        vis = []
-        for vi in self.bdd.support(f):
-            ak = self.atom_keys.get(vi)
-            if ak and self._hit(evkeys, ak):
-                vis.append(vi)
-        if not vis:
-            return f
-        return self.bdd.exists(f, frozenset(vis))
+    def sat(self, f):
+        return self.bdd.AND(self.axioms, f) != self.bdd.FALSE
+
+    def show_atom(self, a):
+        nm = self.names()
+        if a and a[0] == "is":
+            return "%s is %s" % (show(a[1], nm), a[2])
+        if a and a[0] == "localbool":
+            return "%s@bb%d" % (nm.get(a[1], "_%d" % a[1]), a[2])
+        return show(a, nm)
+
+    def show(self, f, limit=10):
+        return self.bdd.to_str(f, self.show_atom, limit)
+
+    def atoms_of(self, f):
+        return self.bdd.atoms(f)
+
+    def counterexample(self, pc, f):
+        """One assignment (as a readable string) satisfying pc & !f, or None."""
+        b = self.bdd
+        g = b.AND(b.AND(self.axioms, pc), b.NOT(f))
+        m = b.any_sat(g)
+        if m is None:
+            return None
+        return " & ".join(("" if v else "!") + self.show_atom(b.vars[i]) for i, v in sorted(m.items()))
+
+    def is_atom(self, e):
+        """Formula for `subject is variant` (handles the dual of a two-valued switch)."""
+        d = self.duals.get(e)
+        if d is not None:
+            return self.bdd.NOT(self.atom(d[0]))
+        return self.atom(e)
+
+    def lit(self, e):
+        """Formula of a bool-valued expression built by a rule (same normalisation as extracted atoms)."""
+        return self.formula(e, (0, 0))
+
+    def find(self, pred):
+        """[(atom expr, formula)] of existing atoms satisfying pred."""
+        out = []
+        for a in list(self.bdd.vars):
+            try:
+                if pred(a):
+                    out.append((a, self.bdd.var(a)))
+            except Exception:
+                pass
+        return out
+
+    def import_formula(self, other, f, mapping):
+        """Rebuild formula f (from space `other`) here, rewriting atoms with `mapping(expr) -> expr|None`."""
+        memo = {}
+        ob = other.bdd
+        for k, v in other.duals.items():
+            k2 = subst(k, mapping)
+            v2 = (subst(v[0], mapping), v[1])
+            self.duals.setdefault(k2, v2)
+
+        def rec(n):
+            if n <= 1:
+                return n
+            r = memo.get(n)
+            if r is not None:
+                return r
+            v, lo, hi = ob.nodes[n]
+            a = ob.vars[v]
+            a2 = subst(a, mapping)
+            if a2 and a2[0] == "is":
+                fa = self.is_atom(a2)
+            elif a2 and a2[0] == "localbool":
+                fa = self.atom(("imported",) + a2 + (getattr(getattr(other, "fn", None), "stable", ""),))
+            else:
+                fa = self.formula(a2, (0, 0)) if a2[0] in ("bin", "not", "const") else self.atom(a2)
+            r = self.bdd.ITE(fa, rec(hi), rec(lo))
+            memo[n] = r
+            return r
+        g = rec(f)
+        # exhaustiveness axioms travel with the formula
+        if other.axioms != ob.TRUE:
+            self.axioms = self.bdd.AND(self.axioms, rec(other.axioms))
+        return g
 
     # ------------------------------------------------------------------ boolean formulas
     def formula(self, e, point, env=None, pc=None):
@@ -145,6 +197,58 @@ class PathA:
                     return b.FALSE
             return self.atom(("bin", "Lt", x, y, ty))
         return self.atom(("bin", op, x, y, ty))
+
+
+class PathA(FormulaSpace):
+    """Path-condition analysis of one function body.
+
+    avoid: blocks treated as deleted (for SKIP queries: "reaches X without passing S").
+    """
+
+    def __init__(self, world, fn, avoid=(), bdd=None):
+        self.world = world
+        self.fn = fn
+        self.fa = fna_of(world, fn)
+        self.cfg = cfg_of(fn)
+        FormulaSpace.__init__(self, bdd, fn.names)
+        self.avoid = set(avoid)
+        self.atom_keys = {}     # var index -> mem keys
+        self.pc_in = {}
+        self.bool_env = {}      # block -> {local: (T, F)} on entry
+        self.tracked = set(l for l in self.fa.multi if fn.locals[l]["ty"] == "bool")
+        self._edge_cond = {}
+        self._run()
+
+    # ------------------------------------------------------------------ atoms
+    def atom(self, e):
+        b = self.bdd
+        n = len(b.vars)
+        v = b.var(e)
+        if len(b.vars) != n:
+            self.atom_keys[n] = self.fa.mem_keys(e)
+        return v
+
+    def _hit(self, evkeys, akeys):
+        for k in evkeys:
+            if k in akeys:
+                return True
+            if k[0] == "adt":
+                for kk in akeys:
+                    if kk[0] == "f" and kk[1] == k[1]:
+                        return True
+        return False
+
+    def _kill(self, f, evkeys):
+        if f <= 1 or not evkeys:
+            return f
+        vis = []
+        for vi in self.bdd.support(f):
+            ak = self.atom_keys.get(vi)
+            if ak and self._hit(evkeys, ak):
+                vis.append(vi)
+        if not vis:
+            return f
+        return self.bdd.exists(f, frozenset(vis))
 
     # ------------------------------------------------------------------ propagation
     def _topo(self):
@@ -299,7 +403,6 @@ class PathA:
             (v0, d0), (v1, d1) = vals
             a0 = self.atom(mk(v0))
             # keep one atom for a two-valued exhaustive switch; remember the dual name for matching
-            self.duals = getattr(self, "duals", {})
             self.duals[mk(v1)] = (mk(v0), False)
             out.append((d0, b.AND(pc, a0)))
             out.append((d1, b.AND(pc, b.NOT(a0))))
@@ -338,13 +441,6 @@ class PathA:
         return [(d, m[d]) for d in order]
 
     # ------------------------------------------------------------------ queries
-    def is_atom(self, e):
-        """Formula for `subject is variant` (handles the dual of a two-valued switch)."""
-        d = getattr(self, "duals", {}).get(e)
-        if d is not None:
-            return self.bdd.NOT(self.atom(d[0]))
-        return self.atom(e)
-
     def pc_block(self, blk):
         return self.pc_in.get(blk, self.bdd.FALSE)
 
@@ -390,39 +486,6 @@ class PathA:
     def edge_cond(self, a, c):
         return self._edge_cond.get((a, c), self.bdd.FALSE)
 
-    def entails(self, pc, f):
-        b = self.bdd
-        return b.AND(b.AND(self.axioms, pc), b.NOT(f)) == b.FALSE
-
-    def sat(self, f):
-        return self.bdd.AND(self.axioms, f) != self.bdd.FALSE
-
-    def names(self):
-        return self.fn.names
-
-    def show_atom(self, a):
-        if a and a[0] == "is":
-            return "%s is %s" % (show(a[1], self.fn.names), a[2])
-        if a and a[0] == "localbool":
-            nm = self.fn.names.get(a[1], "_%d" % a[1])
-            return "%s@bb%d" % (nm, a[2])
-        return show(a, self.fn.names)
-
-    def show(self, f, limit=10):
-        return self.bdd.to_str(f, self.show_atom, limit)
-
-    def atoms_of(self, f):
-        return self.bdd.atoms(f)
-
-    def counterexample(self, pc, f):
-        """One assignment (as a readable string) satisfying pc & !f, or None."""
-        b = self.bdd
-        g = b.AND(b.AND(self.axioms, pc), b.NOT(f))
-        m = b.any_sat(g)
-        if m is None:
-            return None
-        return " & ".join(("" if v else "!") + self.show_atom(b.vars[i]) for i, v in sorted(m.items()))
-
     # return-value formulas ------------------------------------------------------
     def ret_true(self):
         """Formula under which a bool function returns true (over atoms of its own context)."""
@@ -458,33 +521,6 @@ class PathA:
             if r in self.pc_in:
                 res = b.OR(res, self.pc_at(r, len(self.fn.blocks[r]["stmts"])))
         return res
-
-    # translation of a callee formula into this context ---------------------------------
-    def import_formula(self, other, f, mapping):
-        """Rebuild formula f (from PathA `other`) here, rewriting atoms with `mapping(expr) -> expr|None`."""
-        memo = {}
-        ob = other.bdd
-
-        def rec(n):
-            if n <= 1:
-                return n
-            r = memo.get(n)
-            if r is not None:
-                return r
-            v, lo, hi = ob.nodes[n]
-            a = ob.vars[v]
-            a2 = subst(a, mapping)
-            if a2 and a2[0] == "is":
-                fa = self.is_atom(a2)
-            elif a2 and a2[0] == "localbool":
-                fa = self.atom(("imported",) + a2 + (other.fn.stable,))
-            else:
-                fa = self.formula(a2, (0, 0)) if a2[0] in ("bin", "not", "const") else self.atom(a2)
-            r = self.bdd.ITE(fa, rec(hi), rec(lo))
-            memo[n] = r
-            return r
-        return rec(f)
-
 
 _pa_cache = {}
 
